@@ -103,6 +103,42 @@ let () =
         List.iter (fun o -> print_endline (out_str o)) outs;
         print_endline "END";
         flush stdout
+      | ["decode"; hexfile] ->
+        let f = bytes_of_hex hexfile in
+        (match decode_store f with
+         | OpEmpty -> print_endline "empty"
+         | OpNoRoots -> print_endline "noroots"
+         | OpBad -> print_endline "bad"
+         | OpOk (size, cs) ->
+           let buf = Buffer.create 256 in
+           Buffer.add_string buf (Printf.sprintf "ok %d " (int_of_z size));
+           List.iter (fun (name, t) ->
+             Buffer.add_string buf (Printf.sprintf "[%s n=%d b=%d" (hex_of_bytes name) (int_of_z (num t)) (int_of_z (nby t)));
+             List.iter (fun (i : item) ->
+               Buffer.add_string buf (Printf.sprintf " %s/%s/%d" (hex_of_bytes i.ikey) (hex_of_bytes i.ival) (int_of_z i.iprio)))
+               (elems t);
+             Buffer.add_string buf "]") cs;
+           print_endline (Buffer.contents buf));
+        flush stdout
+      | ["conforms"; cmps; hexfile] ->
+        (* cmps: comma separated hexname:id pairs ("-" for none) *)
+        let tbl = if cmps = "-" then [] else
+          List.map (fun p -> match String.split_on_char ':' p with
+            | [n; i] -> (bytes_of_hex n, nat_of_int (int_of_string i))
+            | _ -> failwith "bad cmps") (String.split_on_char ',' cmps) in
+        let cmpid name = (try List.assoc name tbl with Not_found -> O) in
+        print_endline (if conforms_v4 cmpid (bytes_of_hex hexfile) then "true" else "false");
+        flush stdout
+      | ["roots"; hexfile] ->
+        (* every end position at which a valid root record ends *)
+        let f = bytes_of_hex hexfile in
+        let n = List.length f in
+        let buf = Buffer.create 64 in
+        for e = 45 to n do
+          (match root_at f (z_of_int e) with Some _ -> Buffer.add_string buf (string_of_int e ^ " ") | None -> ())
+        done;
+        print_endline ("roots " ^ Buffer.contents buf);
+        flush stdout
       | ["quit"] -> exit 0
       | _ -> print_endline ("ERR unknown request: " ^ line); flush stdout
     done
